@@ -7,4 +7,5 @@ Definition dispatch (entry prop : Z) (case obs : val) : val :=
    else if entry =? 5 then run_mutate case obs
    else if entry =? 4 then run_load prop case obs
    else if entry =? 9 then run_derive prop case obs
+   else if entry =? 10 then run_inputs_unchanged case obs
    else VList [VInt (-2)])%Z.
